@@ -279,7 +279,7 @@ def check(ctx):
     alltags = {}
     for label, items in units:
         ctx.phase("%s (%d inputs)" % (label, len(items)))
-        nch = max(1, min(len(items), core.NPROC * 6))
+        nch = max(1, min(len(items), core.NPROC * 2))
         for cnt, nontriv, tags, fails in core.pmap(_work, [items[k::nch] for k in range(nch)]):
             ctx.count("evaluations", cnt)
             ctx.count("input_cases", cnt)
